@@ -126,6 +126,7 @@ class Engine:
         from . import builtins as B
         self.B = B
         B.install(self)
+        State.on_oblige = self._register_obligation
 
     # ===================================================================== source handling
     def get_ast(self, fn):
@@ -234,6 +235,12 @@ class Engine:
             yield st.assume(ncond), False
         else:
             self.sink(st)  # dead path: keep its obligations
+
+    def _register_obligation(self, o, tags):
+        if id(o) not in self._obl_ids:
+            self._obl_ids.add(id(o))
+            self._obl_keep.append(o)
+            self.obligations.append(o + (tags,))
 
     def sink(self, st):
         """deposit the obligations of a finished (or dead / cut) path"""
